@@ -248,6 +248,24 @@ Theorem C10_link_to_fifo_refuted_before_repair :
 Proof. exact pinned_link_to_fifo_blocks. Qed.
 Print Assumptions C10_link_to_fifo_refuted_before_repair.
 
+(* ---- resources: a scan never suppresses later entries by running out of descriptors ----
+   os.ReadDir closes the directory before the loop over its entries starts and inspectFile closes
+   each file before the next is opened: beyond the constant of the process the scan of ANY tree
+   has at most one descriptor open at a time - bounded neither by width nor by depth.  The check
+   runs the scans under ulimit -n 32/64/256 on trees wider and deeper than that.  A loop that
+   defers the close to the end of the directory holds every file of the directory and of its
+   ancestors: 300 for a directory of 300 files, 80 for 40 files followed by a sub-directory of 40. *)
+Theorem C10_descriptors_bounded : forall n, (peak_fds n <= 1)%nat.
+Proof. exact peak_fds_le_1. Qed.
+Print Assumptions C10_descriptors_bounded.
+
+Theorem C10_descriptors_deferred_close_refuted :
+  peak_fds (Dir (bs "d") (wide_listing 300)) = 1%nat /\
+  peak_fds_deferred (Dir (bs "d") (wide_listing 300)) = 300%nat /\
+  peak_fds_deferred (Dir (bs "d") (wide_listing 40 ++ [Dir (bs "s") (wide_listing 40)])) = 80%nat.
+Proof. exact deferred_close_unbounded. Qed.
+Print Assumptions C10_descriptors_deferred_close_refuted.
+
 (* ---- refusals ----
    Arguments that are regular files are reported; the first directory met without -r, or the
    first path that does not exist (with or without -r), ends the run with exit status 1. *)
